@@ -59,6 +59,16 @@ def expose(model):
                     oname = f"__obs{counter[0]}"
                     n.output.append(oname)
                     new.append((oname, vi, sc, dp))
+                # what the body declares for its carried outputs is observable through the Loop node's own outputs
+                ncar = len(n.input) - 2
+                for k in range(max(0, ncar)):
+                    if k + 1 < len(body.output) and k < len(n.output) and n.output[k]:
+                        bo = body.output[k + 1]
+                        if bo.type.HasField("tensor_type") and bo.type.tensor_type.elem_type:
+                            counter[0] += 1
+                            alias = f"__lbo{counter[0]}"
+                            g.node.append(onnx.helper.make_node("Identity", [n.output[k]], [alias]))
+                            new.append((alias, bo, scope + "/LoopBodyOutput", depth))
             elif n.op_type in ("If", "Scan"):
                 for a in n.attribute:
                     if a.type == onnx.AttributeProto.GRAPH:
